@@ -1,21 +1,35 @@
-"""Ownership-ledger slices (tie T1 of C10 for parallel code): a function body is abstracted to the list of
-ownership events on its sc_array_t variables, as a function of the branch conditions.
+"""Ownership-ledger slices (tie T1 of C10 for code that creates and destroys objects): a function body is abstracted to
+the list of ownership events on its sc_array_t variables and on the heap objects it creates, as a function of the
+branch conditions.
 
-Events (coq/C10/LedgerModel.v):  LNew x | LInit x | LReset x | LDestroy x | LUse x | LGrow x | LCopy dst src
-    x = sc_array_new[_count] (..)                       LNew x        heap struct + data block
+Variables are named by their C text: a local / parameter `x`, a field `p->f` or `s.f` (e.g. "hash->slots",
+"hash_array->a"); `&x` names x.  Events (coq/C10/LedgerModel.v):
+    x = sc_array_new[_count] (..)                       LNew x        heap structure + data block
     sc_array_init[_count] (x | &x, ..)                  LInit x       x's data pointer is overwritten by a fresh block
     sc_array_reset (x | &x)                             LReset x      the data block is freed (nothing when the array is empty)
-    sc_array_destroy (x)                                LDestroy x    data block and heap struct are freed
+    sc_array_destroy (x)                                LDestroy x    data block and heap structure are freed
     sc_array_resize / sc_array_push[_count] (x, ..)     LGrow x       x must be a valid array; it holds a block afterwards
     sc_notify_merge (out, a, b, n)                      LUse a; LUse b; LGrow out
-    *d = s   (struct assignment between sc_array_t)     LCopy d s     d's data pointer is overwritten by s's
-    any other mention of an array variable (x->array, x->elem_count, sc_array_index[_int] (x, ..), x passed to a
-    function that is not listed in PASSIVE)              LUse x / refused
-Statements: `if` becomes a Gallina `if` over a boolean parameter c<i> (i = source order); the condition itself is
-emitted as a separate definition <name>_c<i> of the function's integer variables.  Loops may only contain LUse / LGrow
-events (their body is taken once: those events are idempotent).  Everything else that mentions an sc_array_t variable,
-or calls a function whose name starts with sc_array_ / sc_malloc / sc_calloc / sc_realloc / sc_free / sc_strdup / sc_mempool,
-is REFUSED (c2g.Unsupported: the group fails, the tie is broken)."""
+    *d = *s, *d = s, d = *s (sc_array_t structures), memcpy (d, s, sizeof (sc_array_t))
+                                                        LCopy d s     d's data pointer is overwritten by s's
+    x = y, T *x = y (pointers to sc_array_t, or pointers to opaque objects: see below), x = &y
+                                                        LAlias x y    x refers to the object y refers to
+    x = sc_malloc / sc_calloc (SC_ALLOC, SC_ALLOC_ZERO) / sc_mempool_new* / sc_hash_new (..)
+                                                        LAlloc x      an opaque heap object
+    sc_free (SC_FREE) / sc_mempool_destroy / sc_hash_destroy (x)
+                                                        LFree x       the object itself is freed
+    any other mention of an array variable (x->array, x->elem_count, sc_array_index* (x, ..)) and an OPAQUE variable
+    passed to another function                          LUse x
+A variable is OPAQUE when it is the target of an LAlloc / LFree in the slice or listed by the caller (`opaque=`).
+Statements: `if` becomes a Gallina `if` over c <i> (i = source order); the condition is emitted as <name>_c<i> when the
+translator can express it.  Loops may only contain LUse / LGrow events (their body is taken once: idempotent).
+`return x;` as the LAST statement of the slice is LUse x; with allow_return any `return` is dropped, but then the slice
+may only contain LAlias / LUse events (paths that really return early are a subset of the paths of the event list).
+REFUSED (c2g.Unsupported: the group fails, the tie is broken): any other call of a function whose name starts with
+sc_array_ / sc_malloc / sc_calloc / sc_realloc / sc_free / sc_strdup / sc_mempool_(new|destroy|init|reset) / sc_hash_(new|destroy),
+a whole array passed to a function that is not listed, an array variable assigned anything else, a store into a field
+of an array, ownership changes inside a loop, a field `x->f` mentioned after a statement of the same block freed `x`
+(fields are separate names in the model, so this use after free is caught here)."""
 import re
 import c2g
 import slicelib as sl
@@ -24,7 +38,13 @@ NEW = ("sc_array_new", "sc_array_new_count")
 INIT = ("sc_array_init", "sc_array_init_count")
 GROW = ("sc_array_resize", "sc_array_push", "sc_array_push_count")
 USE = ("sc_array_index", "sc_array_index_int", "sc_array_index_long", "sc_array_index_ssize_t")
-OWNERSHIP_PREFIX = ("sc_array_", "sc_malloc", "sc_calloc", "sc_realloc", "sc_free", "sc_strdup", "sc_mempool", "sc_list_", "sc_hash_")
+ALLOC = ("sc_malloc", "sc_calloc", "sc_mempool_new", "sc_mempool_new_zero_and_persist", "sc_hash_new")
+FREE = ("sc_free", "sc_mempool_destroy", "sc_hash_destroy")
+FREE_ARG = {"sc_free": 1}            # sc_free (package, ptr)
+OWNERSHIP_PREFIX = ("sc_array_", "sc_malloc", "sc_calloc", "sc_realloc", "sc_free", "sc_strdup", "sc_mempool_new", "sc_mempool_destroy",
+                    "sc_mempool_init", "sc_mempool_reset", "sc_hash_new", "sc_hash_destroy", "sc_hash_array_new", "sc_hash_array_destroy",
+                    "sc_list_new", "sc_list_destroy")
+CHANGING = r"LNew|LInit|LReset|LDestroy|LCopy|LAlloc|LFree"
 
 
 def _is_array_type(t):
@@ -32,65 +52,131 @@ def _is_array_type(t):
     return re.match(r"^(const )?sc_array_t( \*)?$", t.strip()) is not None
 
 
-def _var(n):
-    """name of the sc_array_t variable an argument denotes: x (pointer variable) or &x (struct variable)"""
+def _qt(n):
+    return (n.get("type", {}) or {}).get("qualType", "")
+
+
+def _name(n):
+    """C text of a variable: x, p->f, s.f; &x names x.  None for anything else."""
     n = sl.strip(n)
-    if n.get("kind") == "UnaryOperator" and n.get("opcode") == "&":
-        n = sl.strip(n["inner"][0])
-    if n.get("kind") == "DeclRefExpr" and _is_array_type(n.get("type", {}).get("qualType")):
+    k = n.get("kind")
+    if k == "UnaryOperator" and n.get("opcode") == "&":
+        return _name(n["inner"][0])
+    if k == "DeclRefExpr" and n.get("referencedDecl", {}).get("kind") in ("VarDecl", "ParmVarDecl"):
         return n["referencedDecl"]["name"]
+    if k == "MemberExpr":
+        b = _name(n["inner"][0])
+        if b is None:
+            return None
+        return "%s%s%s" % (b, "->" if n.get("isArrow") else ".", n.get("name"))
     return None
 
 
+def _var(n):
+    """name of the sc_array_t variable an expression denotes (pointer, structure, or the address of a structure)"""
+    n = sl.strip(n)
+    if n.get("kind") == "UnaryOperator" and n.get("opcode") == "&":
+        n = sl.strip(n["inner"][0])
+    if n.get("kind") in ("DeclRefExpr", "MemberExpr") and _is_array_type(_qt(n)):
+        return _name(n)
+    return None
+
+
+def q(x):
+    return '"%s"%%string' % x
+
+
 class Ledger:
-    def __init__(self, fname, self_calls=()):
+    def __init__(self, fname, self_calls=(), opaque=(), allow_return=False):
         self.fname = fname
         self.self_calls = tuple(self_calls)
+        self.opaque = set(opaque)
+        self.allow_return = allow_return
         self.conds = []          # condition nodes in source order
-
-    def array_refs(self, n):
-        out = []
-        sl.walk(n, lambda x: out.append(x["referencedDecl"]["name"]) if x.get("kind") == "DeclRefExpr" and
-                _is_array_type(x.get("type", {}).get("qualType")) else None)
-        return out
+        self.last_stmt = None
 
     def refuse(self, why, n=None):
         loc = ""
         if isinstance(n, dict):
-            loc = " (line %s)" % (n.get("range", {}).get("begin", {}).get("line") or n.get("range", {}).get("begin", {}).get("expansionLoc", {}).get("line") or "?")
+            b = n.get("range", {}).get("begin", {})
+            loc = " (line %s)" % (b.get("line") or b.get("expansionLoc", {}).get("line") or b.get("spellingLoc", {}).get("line") or "?")
         raise c2g.Unsupported("%s: ledger slice: %s%s" % (self.fname, why, loc))
 
+    def scan_opaque(self, stmts):
+        """variables that are the target of an allocation / free call are opaque objects"""
+        def f(n):
+            if n.get("kind") == "BinaryOperator" and n.get("opcode") == "=":
+                r = sl.strip(n["inner"][1])
+                while r.get("kind") == "BinaryOperator" and r.get("opcode") == "=":
+                    r = sl.strip(r["inner"][1])
+                if r.get("kind") == "CallExpr" and sl.callee_name(r) in ALLOC:
+                    m = n
+                    while True:
+                        nm = _name(m["inner"][0])
+                        if nm is not None:
+                            self.opaque.add(nm)
+                        m2 = sl.strip(m["inner"][1])
+                        if m2.get("kind") == "BinaryOperator" and m2.get("opcode") == "=":
+                            m = m2
+                        else:
+                            break
+            if n.get("kind") == "VarDecl":
+                for c in n.get("inner", []):
+                    if isinstance(c, dict) and sl.strip(c).get("kind") == "CallExpr" and sl.callee_name(sl.strip(c)) in ALLOC:
+                        self.opaque.add(n["name"])
+            if n.get("kind") == "CallExpr" and sl.callee_name(n) in FREE:
+                a = n["inner"][1 + FREE_ARG.get(sl.callee_name(n), 0)]
+                if _name(a) is not None:
+                    self.opaque.add(_name(a))
+        for s in stmts:
+            sl.walk(s, f)
+
+    def is_opaque(self, n):
+        nm = _name(n)
+        return nm is not None and nm in self.opaque and _var(n) is None
+
+    # ------------------------------------------------------------------ expressions
     def call_events(self, n, lhs=None):
-        """events of one CallExpr (arguments are scanned first: nested calls)"""
         nm = sl.callee_name(n)
         args = n["inner"][1:]
         ev = []
         for a in args:
             ev += self.expr_events(a, toplevel_arg=True)
-        if nm in NEW:
+        if nm in NEW or nm in ALLOC:
             if lhs is None:
-                self.refuse("result of %s is not assigned to an array variable" % nm, n)
-            return ev + ['LNew "%s"%%string' % lhs]
+                self.refuse("result of %s is not assigned to a variable" % nm, n)
+            return ev + ["%s %s" % ("LNew" if nm in NEW else "LAlloc", q(lhs))]
         if lhs is not None:
-            self.refuse("an array variable is assigned the result of %s" % nm, n)
+            self.refuse("a tracked variable is assigned the result of %s" % nm, n)
+        if nm in FREE:
+            a = args[FREE_ARG.get(nm, 0)]
+            x = _name(a)
+            if x is None:
+                self.refuse("%s of something that is not a plain variable" % nm, n)
+            ev = [e for e in ev if e != "LUse %s" % q(x)]
+            return ev + ["LFree %s" % q(x)]
         if nm in INIT or nm == "sc_array_reset" or nm == "sc_array_destroy" or nm in GROW or nm in USE:
             x = _var(args[0]) if args else None
             if x is None:
                 self.refuse("%s on something that is not a plain array variable" % nm, n)
             k = "LInit" if nm in INIT else "LReset" if nm == "sc_array_reset" else "LDestroy" if nm == "sc_array_destroy" else "LGrow" if nm in GROW else "LUse"
-            # the first argument was scanned as a plain mention (LUse): drop that
-            ev = [e for e in ev if e != 'LUse "%s"%%string' % x] if k != "LUse" else ev
-            return ev + ['%s "%s"%%string' % (k, x)]
+            ev = [e for e in ev if e != "LUse %s" % q(x)] if k != "LUse" else ev
+            return ev + ["%s %s" % (k, q(x))]
         if nm == "sc_notify_merge":
             xs = [_var(a) for a in args[:3]]
             if None in xs:
                 self.refuse("sc_notify_merge on something that is not a plain array variable", n)
-            ev = [e for e in ev if e not in ['LUse "%s"%%string' % x for x in xs]]
-            return ev + ['LUse "%s"%%string' % xs[1], 'LUse "%s"%%string' % xs[2], 'LGrow "%s"%%string' % xs[0]]
+            ev = [e for e in ev if e not in ["LUse %s" % q(x) for x in xs]]
+            return ev + ["LUse %s" % q(xs[1]), "LUse %s" % q(xs[2]), "LGrow %s" % q(xs[0])]
+        if nm == "memcpy" and len(args) == 3 and _var(args[0]) is not None and _var(args[1]) is not None:
+            sz = sl.strip(args[2])
+            if sz.get("kind") == "UnaryExprOrTypeTraitExpr" and "sc_array_t" in (sz.get("argType", {}).get("qualType", "") or _qt(sz)):
+                d, s_ = _var(args[0]), _var(args[1])
+                ev = [e for e in ev if e not in ("LUse %s" % q(d), "LUse %s" % q(s_))]
+                return ev + ["LCopy %s %s" % (q(d), q(s_))]
+            self.refuse("memcpy between array structures with a size that is not sizeof (sc_array_t)", n)
         if nm is not None and nm.startswith(OWNERSHIP_PREFIX):
             self.refuse("call of %s is not understood" % nm, n)
-        # any other function (MPI, memcpy, ..): array variables may only be passed through a member (x->array), which
-        # expr_events has turned into LUse; a whole array passed to a function that is not listed above is refused
         if nm in self.self_calls:
             return ev       # the function itself: its array arguments must be valid (LUse, already recorded); by induction it returns them valid
         for a in args:
@@ -99,27 +185,27 @@ class Ledger:
         return ev
 
     def expr_events(self, n, toplevel_arg=False):
-        n0 = n
         n = sl.strip(n)
         k = n.get("kind")
         if k == "CallExpr":
             return self.call_events(n)
+        if _var(n) is not None and k != "UnaryOperator":
+            # an array variable (local, parameter or field) mentioned by itself
+            if toplevel_arg:
+                return ["LUse %s" % q(_var(n))]      # the caller decides (known callee) or refuses
+            self.refuse("array variable %s used in an expression" % _var(n), n)
+        if k == "UnaryOperator" and n.get("opcode") == "&" and _var(n) is not None:
+            if toplevel_arg:
+                return ["LUse %s" % q(_var(n))]
+            self.refuse("address of array variable %s taken" % _var(n), n)
+        if self.is_opaque(n):
+            return ["LUse %s" % q(_name(n))] if toplevel_arg else []
         if k == "MemberExpr":
             base = sl.strip(n["inner"][0])
             x = _var(base)
             if x is not None:
-                return ['LUse "%s"%%string' % x]
+                return ["LUse %s" % q(x)]
             return self.expr_events(base)
-        if k == "DeclRefExpr":
-            if _is_array_type(n.get("type", {}).get("qualType")):
-                if toplevel_arg:
-                    return ['LUse "%s"%%string' % n["referencedDecl"]["name"]]      # the caller decides (known callee) or refuses
-                self.refuse("array variable %s used in an expression" % n["referencedDecl"]["name"], n)
-            return []
-        if k == "UnaryOperator" and n.get("opcode") == "&" and _var(n) is not None:
-            if toplevel_arg:
-                return ['LUse "%s"%%string' % _var(n)]
-            self.refuse("address of array variable %s taken" % _var(n), n)
         if k == "BinaryOperator" and n.get("opcode") == "=":
             return self.assign_events(n)
         ev = []
@@ -128,29 +214,74 @@ class Ledger:
                 ev += self.expr_events(c)
         return ev
 
+    def rhs_events(self, lname, lhs_is_array_ptr, lhs_is_array_struct, lhs_opaque, rhs, n):
+        """events of `lname = rhs` for a tracked left side"""
+        rhs = sl.strip(rhs)
+        if rhs.get("kind") == "BinaryOperator" and rhs.get("opcode") == "=":
+            # chained assignment a = b = e
+            inner_l = sl.strip(rhs["inner"][0])
+            ev = self.assign_events(rhs)
+            iname = _name(inner_l)
+            if iname is None:
+                self.refuse("chained assignment to %s through something that is not a variable" % lname, n)
+            return ev + ["LAlias %s %s" % (q(lname), q(iname))]
+        if rhs.get("kind") == "CallExpr":
+            nm = sl.callee_name(rhs)
+            if (nm in NEW and (lhs_is_array_ptr)) or (nm in ALLOC and lhs_opaque):
+                return self.call_events(rhs, lhs=lname)
+            self.refuse("%s is assigned the result of %s" % (lname, nm), n)
+        if lhs_is_array_struct:
+            s = None
+            if rhs.get("kind") == "UnaryOperator" and rhs.get("opcode") == "*":
+                s = _var(rhs["inner"][0])
+            elif _var(rhs) is not None and "*" not in _qt(rhs):
+                s = _var(rhs)
+            if s is None:
+                self.refuse("structure %s is assigned something that is not an array structure" % lname, n)
+            return ["LCopy %s %s" % (q(lname), q(s))]
+        # pointer on the left: another pointer, or the address of a structure
+        r = rhs
+        if r.get("kind") == "UnaryOperator" and r.get("opcode") == "&":
+            r = sl.strip(r["inner"][0])
+            nm = _name(r)
+            if nm is None:
+                self.refuse("%s is assigned an address that is not the address of a variable" % lname, n)
+            if lhs_opaque and not _is_array_type(_qt(r)):
+                # the address of an embedded member: taken as the address of the enclosing object (first member)
+                base = _name(sl.strip(r["inner"][0])) if r.get("kind") == "MemberExpr" else None
+                if base is None or base not in self.opaque:
+                    self.refuse("%s is assigned the address of %s, which is not inside a tracked object" % (lname, nm), n)
+                self.notes.append("`%s = &%s` is taken as an alias of %s (the member is assumed to be the first one of its structure)" % (lname, nm, base))
+                return ["LAlias %s %s" % (q(lname), q(base))]
+            return ["LAlias %s %s" % (q(lname), q(nm))]
+        nm = _name(r)
+        if nm is not None and ((lhs_is_array_ptr and _is_array_type(_qt(r))) or (lhs_opaque and (nm in self.opaque or r.get("kind") == "DeclRefExpr"))):
+            if lhs_opaque:
+                self.opaque.add(nm)
+            return ["LAlias %s %s" % (q(lname), q(nm))]
+        self.refuse("assignment to %s is not understood" % lname, n)
+
+    notes = []
+
     def assign_events(self, n):
         lhs, rhs = sl.strip(n["inner"][0]), sl.strip(n["inner"][1])
-        # x = sc_array_new (..)
-        if lhs.get("kind") == "DeclRefExpr" and _is_array_type(lhs.get("type", {}).get("qualType")):
-            if rhs.get("kind") == "CallExpr" and sl.callee_name(rhs) in NEW:
-                return self.call_events(rhs, lhs=lhs["referencedDecl"]["name"])
-            if rhs.get("kind") == "DeclRefExpr" and "*" not in lhs["type"]["qualType"]:
-                return ['LCopy "%s"%%string "%s"%%string' % (lhs["referencedDecl"]["name"], rhs["referencedDecl"]["name"])]
-            self.refuse("assignment to array variable %s is not understood" % lhs["referencedDecl"]["name"], n)
+        lname = _name(lhs)
+        if lhs.get("kind") in ("DeclRefExpr", "MemberExpr") and lname is not None:
+            if _is_array_type(_qt(lhs)):
+                isptr = "*" in _qt(lhs)
+                return self.rhs_events(lname, isptr, not isptr, False, rhs, n)
+            if lname in self.opaque:
+                return self.rhs_events(lname, False, False, True, rhs, n)
         # *d = s  /  *d = *s
         if lhs.get("kind") == "UnaryOperator" and lhs.get("opcode") == "*" and _var(lhs["inner"][0]) is not None:
-            d = _var(lhs["inner"][0])
-            s = None
-            if rhs.get("kind") == "DeclRefExpr" and _is_array_type(rhs.get("type", {}).get("qualType")):
-                s = rhs["referencedDecl"]["name"]
-            elif rhs.get("kind") == "UnaryOperator" and rhs.get("opcode") == "*":
-                s = _var(rhs["inner"][0])
-            if s is None:
-                self.refuse("struct assignment to *%s from something that is not an array variable" % d, n)
-            return ['LCopy "%s"%%string "%s"%%string' % (d, s)]
+            return self.rhs_events(_var(lhs["inner"][0]), False, True, False, rhs, n)
         if lhs.get("kind") == "MemberExpr" and _var(sl.strip(lhs["inner"][0])) is not None:
             self.refuse("store into a field of array %s" % _var(sl.strip(lhs["inner"][0])), n)
         return self.expr_events(lhs) + self.expr_events(rhs)
+
+    # ------------------------------------------------------------------ statements
+    def lit(self, ev):
+        return "[%s]" % "; ".join(ev) if ev else "[]"
 
     def stmt(self, s, in_loop=False):
         """Gallina term of type list lev"""
@@ -161,12 +292,12 @@ class Ledger:
             inner = s["inner"]
             i = len(self.conds)
             self.conds.append(inner[0])
+            ce = self.cond_events(inner[0])
             th = self.stmt(inner[1], in_loop)
             el = self.stmt(inner[2], in_loop) if len(inner) > 2 else "[]"
-            ce = self.expr_events(inner[0])
-            pre = ("[%s] ++ " % "; ".join(ce)) if ce else ""
+            pre = ("%s ++ " % self.lit(ce)) if ce else ""
             if th == "[]" and el == "[]":
-                return pre + "[]" if pre else "[]"
+                return self.lit(ce)
             return "%s(if c %d%%nat then %s else %s)" % (pre, i, th, el)
         if k in ("ForStmt", "WhileStmt", "DoStmt"):
             body = [c for c in s["inner"] if isinstance(c, dict) and c.get("kind")]
@@ -175,33 +306,70 @@ class Ledger:
                 if c.get("kind") in ("CompoundStmt", "IfStmt", "ForStmt", "WhileStmt", "DoStmt", "NullStmt", "DeclStmt", "ReturnStmt", "BreakStmt", "ContinueStmt"):
                     parts.append(self.stmt(c, True))
                 else:
-                    ev = self.expr_events(c)
-                    parts.append("[%s]" % "; ".join(ev) if ev else "[]")
+                    parts.append(self.lit(self.cond_events(c)))
             t = " ++ ".join(p for p in parts if p != "[]") or "[]"
-            if re.search(r"LNew|LInit|LReset|LDestroy|LCopy", t):
+            if re.search(CHANGING + "|LAlias", t):
                 self.refuse("ownership changes inside a loop", s)
             return "(%s)" % t if t != "[]" else "[]"
         if k in ("NullStmt", "BreakStmt", "ContinueStmt"):
             return "[]"
         if k == "ReturnStmt":
+            if self.allow_return:
+                return "[]"
+            if s is self.last_stmt and not in_loop:
+                ev = []
+                for c in s.get("inner", []):
+                    if isinstance(c, dict):
+                        ev += self.expr_events(c, toplevel_arg=True)
+                return self.lit(ev)
             self.refuse("return inside the slice", s)
         if k == "DeclStmt":
             ev = []
             for d in s.get("inner", []):
-                if d.get("kind") == "VarDecl":
-                    if _is_array_type(d.get("type", {}).get("qualType")) and [c for c in d.get("inner", []) if isinstance(c, dict) and c.get("kind") != "FullComment"]:
-                        self.refuse("array variable %s declared with an initialiser" % d.get("name"), s)
-                    for c in d.get("inner", []):
-                        if isinstance(c, dict):
-                            ev += self.expr_events(c)
-            return "[%s]" % "; ".join(ev) if ev else "[]"
-        ev = self.expr_events(s)
-        return "[%s]" % "; ".join(ev) if ev else "[]"
+                if d.get("kind") != "VarDecl":
+                    continue
+                inits = [c for c in d.get("inner", []) if isinstance(c, dict) and c.get("kind") != "FullComment"]
+                if not inits:
+                    continue
+                if _is_array_type(_qt(d)):
+                    isptr = "*" in _qt(d)
+                    ev += self.rhs_events(d["name"], isptr, not isptr, False, inits[0], s)
+                elif d["name"] in self.opaque:
+                    ev += self.rhs_events(d["name"], False, False, True, inits[0], s)
+                else:
+                    for c in inits:
+                        ev += self.expr_events(c)
+            return self.lit(ev)
+        return self.lit(self.expr_events(s))
+
+    def cond_events(self, n):
+        """a condition / loop header: null tests and flag reads of tracked variables carry no event"""
+        n = sl.strip(n)
+        k = n.get("kind")
+        if _var(n) is not None or self.is_opaque(n):
+            return []
+        if k == "MemberExpr" and (self.is_opaque(n["inner"][0]) or _name(n) in self.opaque):
+            return []
+        if k in ("BinaryOperator", "UnaryOperator", "ParenExpr", "ImplicitCastExpr", "CStyleCastExpr") and not (k == "BinaryOperator" and n.get("opcode") == "="):
+            ev = []
+            for c in n.get("inner", []):
+                if isinstance(c, dict):
+                    ev += self.cond_events(c)
+            return ev
+        return self.expr_events(n)
 
     def block(self, ss, in_loop=False):
-        parts = [self.stmt(s, in_loop) for s in ss]
+        parts = []
+        freed = []
+        for s in ss:
+            p = self.stmt(s, in_loop)
+            # a field of an object that an earlier statement of this block has freed must not be mentioned any more
+            for x in freed:
+                if '"%s->' % x in p or '"%s.' % x in p:
+                    self.refuse("a field of %s is used after %s was freed" % (x, x), s)
+            freed += re.findall(r'L(?:Free|Destroy) "([^"]+)"', p)
+            parts.append(p)
         parts = [p for p in parts if p != "[]"]
-        # merge adjacent literal lists
         out = []
         for p in parts:
             if out and out[-1].startswith("[") and out[-1].endswith("]") and p.startswith("[") and p.endswith("]") and "if c " not in out[-1] and "if c " not in p:
@@ -215,18 +383,31 @@ PRELUDE = ("From Coq Require Import String.\nFrom ScV Require Import C10.LedgerM
            "\n")
 
 
-def emit_ledger(stmts, gname, fname, comment="", self_calls=()):
-    """returns (text, info): definitions <gname>_c<i> (the branch conditions outside loops, as functions of the integer
-    variables: documentation of what c<i> stands for) and <gname>_b (c0 .. : bool) : list lev"""
-    L = Ledger(fname, self_calls)
+def function_body(F):
+    """statements of a FunctionDecl's body"""
+    body = [c for c in F["inner"] if c.get("kind") == "CompoundStmt"][0]
+    return list(body.get("inner", []))
+
+
+def emit_ledger(stmts, gname, fname, comment="", self_calls=(), opaque=(), allow_return=False):
+    """returns (text, info): definitions <gname>_c<i> (the branch conditions, where the translator can express them:
+    documentation of what c <i> stands for) and <gname>_b (c : nat -> bool) : list lev"""
+    L = Ledger(fname, self_calls, opaque, allow_return)
+    L.notes = []
+    L.scan_opaque(stmts)
+    L.last_stmt = stmts[-1] if stmts else None
     body = L.block(stmts)
+    if allow_return and re.search(CHANGING, body):
+        L.refuse("ownership changes in a slice whose `return` statements are dropped")
     text = ("(* %s *)\n" % comment.replace("*)", "* )").replace("(*", "( *")) if comment else ""
+    for nt in L.notes:
+        text += "(* NOTE: %s *)\n" % nt.replace("*)", "* )").replace("(*", "( *")
     for i, c in enumerate(L.conds):
         try:
             t, info = sl.emit_cond(c, "%s_c%d" % (gname, i), fname)
             text += t
-        except c2g.Unsupported as e:
-            text += "(* c%d: a condition the translator does not express (%s); the ledger theorem quantifies over its value *)\n" % (i, str(e).replace("*)", "* )")[:200])
+        except (c2g.Unsupported, KeyError, IndexError, TypeError, ValueError, AttributeError) as e:
+            text += "(* c %d: a condition the translator does not express (%s); the theorems quantify over its value *)\n" % (i, str(e).replace("*)", "* )").replace("(*", "( *")[:160])
     text += "(* c i = the value of branch condition number i (source order) *)\n"
     text += "Definition %s_b (c : nat -> bool) : list lev :=\n%s.\n" % (gname, body)
-    return text, dict(name=gname + "_b", cname=fname, params=["c"], nconds=len(L.conds), fuel=False)
+    return text, dict(name=gname + "_b", cname=fname, params=["c"], nconds=len(L.conds), fuel=False, opaque=sorted(L.opaque), notes=L.notes)
